@@ -21,6 +21,9 @@ def draw_hier(draw, max_ids=5, max_parts=4, max_dim=3, p_red=0.2, p_cov=0.3, kin
         pop, theta = popgen.draw_reduced(draw, pop, n_ids, cov, positive=True)
     else:
         theta = popgen.draw_theta(draw, pop, n_ids, cov, positive=True)
+    zero = False
+    if pop['kind'] != 'red':
+        theta, zero = popgen.zero_scale(draw, pop, n_ids, theta, p=0.3)
     base = llbuild.draw_ll_for_dim(draw, n_dim)
     lls = [base] + [llbuild.draw_ll_like(draw, base) for _ in range(n_ids - 1)]
     ids = None
@@ -45,7 +48,7 @@ def draw_hier(draw, max_ids=5, max_parts=4, max_dim=3, p_red=0.2, p_cov=0.3, kin
         # likelihood is then responsible for setting the number of individuals
         late = gen.chance(draw, 0.6)
     prior = llbuild.draw_prior(draw, ref.pop_n_par(pop, n_ids), list(theta)) if with_prior else None
-    return dict(pop=pop, n_ids=n_ids, lls=lls, ids=ids, cov=cov, vec=vec, prior=prior, late=late)
+    return dict(pop=pop, n_ids=n_ids, lls=lls, ids=ids, cov=cov, vec=vec, prior=prior, late=late, zero_scale=zero)
 
 
 def _cov_hetero(pop):
@@ -160,6 +163,8 @@ def classify(spec):
         labs.append('late_n_ids')
         if pop['kind'] == 'red':
             labs.append('late_n_ids:reduced')
+    if spec.get('zero_scale'):
+        labs.append('noncentered_zero_scale')
     if popgen.has(pop, 'trunc') and 'vec' in spec:
         from vf.props.c06 import leaf_table
         nb = ref.hier_layout(pop, spec['n_ids'])[0]
